@@ -1,6 +1,6 @@
 (* C09 — soundness of the verified checker moments_ok: a rule that passes integrates every polynomial of degree
    < length tols up to the coefficient-weighted tolerances. *)
-From Coq Require Import ZArith List QArith Qcanon Bool Arith Lia Lra Lqa.
+From Coq Require Import ZArith List QArith Qcanon Bool Arith Lia Lqa.
 From SG Require Import Base.QcUtil Model.Trap Proofs.TrapBasics.
 Import ListNotations.
 Open Scope Qc_scope.
